@@ -123,7 +123,7 @@ class Check:
         for n in getattr(ctx_or_path, 'notes', []):
             self.assume('model: ' + n)
 
-    def add(self, name, assume, claim, kind='forall', meta=None, key=None, replay=None, fallback_payloads=None):
+    def add(self, name, assume, claim, kind='forall', meta=None, key=None, replay=None, fallback_payloads=None, timeout_s=None):
         """register an obligation.  replay: name of a registered replayer + payload builder (model -> payload)"""
         if isinstance(claim, S.SB):
             claim = claim.n
@@ -133,6 +133,8 @@ class Check:
             kind = 'forall'
         ob = solve.Obligation(name, assume, claim, kind, meta, key)
         ob.meta['soft'] = soft
+        if timeout_s is not None:
+            ob.meta['timeout_s'] = timeout_s
         ob.meta['replay'] = replay
         ob.meta['fallback_payloads'] = fallback_payloads
         self.obls.append(ob)
